@@ -141,7 +141,7 @@ class C07(Prop):
                    "self-contained (every pointer reachable from it lands in something it owns)",
                    "is_top_instance flags are not part of the compared structure",
                    "the second history uses only objects of the edited side and objects it creates itself"]
-    runs = {"quick": 3000, "thorough": 80000}
+    runs = {"quick": 8000, "thorough": 200000}
 
     def configure(self, rng, tier):
         if rng.random() < 0.55:
